@@ -16,7 +16,19 @@ ENGINE_ASSUME = ["sync.RWMutex/Mutex/Once, atomic.Bool/Value modelled as sequent
                  "runtime.Callers/CallersFrames modelled by the executor's own call stack with Go's run-time function naming",
                  "fmt/log/strings formatting executed natively on concrete arguments"]
 
+PRUNE = [
+    H("H_C04_prune_distinct", "SliceOfDistinct(Bool()) on a recording stream of 10 (quick) / 13 (thorough) symbolic words -> prune -> replay", reach=["valid", "invalid", "pruned-something"], quick=Q, thorough=T),
+    H("H_C04_prune_map", "MapOf(Bool(),Bool()) on 13/16 symbolic words -> prune -> replay", reach=["valid", "invalid", "pruned-something"], quick=Q, thorough=T),
+    H("H_C04_prune_filter", "two draws of Bool().Filter(id) on 6/7 symbolic words -> prune -> replay", reach=["valid", "invalid", "pruned-something"], quick=Q, thorough=T),
+    H("H_C04_prune_perm", "Permutation of 3 elements (unbiased rejection loop) on 8/10 symbolic words -> prune -> replay", reach=["valid", "invalid", "pruned-something"], quick=Q, thorough=T),
+]
+
 PROPS = {
+    "C04": {
+        "level": "model_checking",
+        "harnesses": PRUNE,
+        "assumptions": ENGINE_ASSUME + ["the comparison float64(u)*2^-53 >= c of flipBiasedCoin is rewritten exactly to u >= ceil(c*2^53) (u < 2^53: conversion and scaling are exact)"],
+    },
     "C05": {
         "level": "model_checking",
         "harnesses": [
